@@ -230,21 +230,31 @@ def apply_qnoise(q, f, how):
   return True
 
 
-def restart(q, route, through_json):
-  """Rebuild q from durable state only."""
+def restart(q, route, through_json, twice=False):
+  """Rebuild q from durable state only.
+
+  twice=True: the SAME configuration dictionary is used for two rebuilds and
+  the second result is returned (a saved architecture is read more than once;
+  a from_config that consumes its argument shows up only then)."""
   import qkeras.quantizers as qq
   cls = type(q)
+  n = 2 if twice else 1
+  out = None
   if route == "from_config":
     cfg = q.get_config()
     if through_json:
       cfg = _json_roundtrip(cfg)
-    return cls.from_config(cfg)
+    for _ in range(n):
+      out = cls.from_config(cfg)
+    return out
   if route == "get_quantizer":
     from tf_keras.utils import serialize_keras_object
     d = serialize_keras_object(q)
     if through_json:
       d = _json_roundtrip(d)
-    return qq.get_quantizer(d)
+    for _ in range(n):
+      out = qq.get_quantizer(d)
+    return out
   if route == "keras":
     # what qkeras layers do: constraints.serialize(...) in get_config and
     # get_quantizer(...) / deserialize in from_config
@@ -253,8 +263,10 @@ def restart(q, route, through_json):
     d = constraints.serialize(q)
     if through_json:
       d = _json_roundtrip(d)
-    return deserialize_keras_object(d, module_objects=vars(qq),
-                                    printable_module_name="quantizer")
+    for _ in range(n):
+      out = deserialize_keras_object(d, module_objects=vars(qq),
+                                     printable_module_name="quantizer")
+    return out
   raise HarnessError("route " + route)
 
 
@@ -397,8 +409,10 @@ def apply_op(ctx, w, oracle, op, extra=None):
     qi = op["q"] % w.n()
     q = w.qs[qi]
     ok, q2 = guard(ctx, "%s|restart:%s" % (w.specs[qi]["cls"], op["route"]),
-                   restart, q, op["route"], bool(op.get("json")), always=True)
-    ctx.fault("restart_" + op["route"] + ("_json" if op.get("json") else ""))
+                   restart, q, op["route"], bool(op.get("json")),
+                   bool(op.get("twice")), always=True)
+    ctx.fault("restart_" + op["route"] + ("_json" if op.get("json") else "") +
+              ("_same_dict_twice" if op.get("twice") else ""))
     if ok:
       if type(q2) is not type(q):
         ctx.violation("%s|restart-class-changed" % w.specs[qi]["cls"],
@@ -460,5 +474,6 @@ def gen_ops(rng, world, weights, n_ops, tensor_kinds=None, mags=None):
     elif k == "RESTART":
       op["route"] = rng.pick(["from_config", "get_quantizer", "keras"])
       op["json"] = rng.chance(0.5)
+      op["twice"] = rng.chance(0.3)
     ops.append(op)
   return ops
